@@ -2269,7 +2269,7 @@ class SeriesGroupBy(GroupBy):
         >>> ddf = dd.from_pandas(df, 2)
         >>> ddf.groupby(['col1']).col2.nunique().compute()
         """
-        slice = self._slice or self.obj.name
+        slice = self._slice if self._slice is not None else self.obj.name
         return new_collection(
             NUnique(
                 self.obj.expr,
